@@ -145,10 +145,31 @@ class LetSubstitution:
     def filter(self, node):
         return is_operator_app(node, 'let')
 
+    def __bound_symbols(self, node):
+        """Return the symbols bound by ``node`` and by binders within it."""
+        res = set()
+        for n in nodes.dfs(node):
+            if n.has_ident() and len(n) > 1 and not n[1].is_leaf() \
+               and n.get_ident() in ['let', 'exists', 'forall']:
+                res.update(b[0].data for b in n[1]
+                           if len(b) > 0 and b[0].is_leaf())
+        return res
+
     def mutations(self, node):
-        if len(node) <= 2:
+        if len(node) <= 2 or node[1].is_leaf():
             return []
+        bound = self.__bound_symbols(node)
+        inner = self.__bound_symbols(node[2])
         for var in node[1]:
+            if len(var) != 2 or not var[0].is_leaf():
+                continue
+            if var[0].data in inner:
+                # the symbol is bound again within the body
+                continue
+            if any(n.is_leaf() and n.data in bound
+                   for n in nodes.dfs(var[1])):
+                # the substituted term would be captured by a binder
+                continue
             if any(n == var[0] for n in nodes.dfs(node[2])):
                 subs = nodes.substitute(node[2], {var[0]: var[1]})
                 yield Simplification({node.id: Node(node[0], node[1], subs)},
